@@ -380,26 +380,29 @@ struct SchedAtomic
 	SchedAtomic(const SchedAtomic &) = delete;
 	SchedAtomic & operator = (const SchedAtomic &) = delete;
 
-	T load(std::memory_order = std::memory_order_seq_cst) const noexcept { schedPoint("atomic.load"); return value; }
-	void store(T v, std::memory_order = std::memory_order_seq_cst) noexcept { schedPoint("atomic.store"); value = v; }
-	T exchange(T v, std::memory_order = std::memory_order_seq_cst) noexcept { schedPoint("atomic.exchange"); T o = value; value = v; return o; }
+	// a scheduling point before and after every operation: a plain access that follows (or precedes) an atomic
+	// one in the same expression must be separable from it by a preemption
+	T load(std::memory_order = std::memory_order_seq_cst) const noexcept { schedPoint("atomic.load"); T v = value; schedPoint("atomic.after"); return v; }
+	void store(T v, std::memory_order = std::memory_order_seq_cst) noexcept { schedPoint("atomic.store"); value = v; schedPoint("atomic.after"); }
+	T exchange(T v, std::memory_order = std::memory_order_seq_cst) noexcept { schedPoint("atomic.exchange"); T o = value; value = v; schedPoint("atomic.after"); return o; }
 	bool compare_exchange_strong(T & expected, T desired, std::memory_order = std::memory_order_seq_cst, std::memory_order = std::memory_order_seq_cst) noexcept {
 		schedPoint("atomic.cas");
-		if(value == expected) { value = desired; return true; }
-		expected = value;
-		return false;
+		bool r = value == expected;
+		if(r) value = desired; else expected = value;
+		schedPoint("atomic.after");
+		return r;
 	}
 	bool compare_exchange_weak(T & expected, T desired, std::memory_order a = std::memory_order_seq_cst, std::memory_order b = std::memory_order_seq_cst) noexcept {
 		return compare_exchange_strong(expected, desired, a, b);
 	}
-	T fetch_add(T d, std::memory_order = std::memory_order_seq_cst) noexcept { schedPoint("atomic.fetch_add"); T o = value; value = (T)(value + d); return o; }
-	T fetch_sub(T d, std::memory_order = std::memory_order_seq_cst) noexcept { schedPoint("atomic.fetch_sub"); T o = value; value = (T)(value - d); return o; }
-	T operator ++ () noexcept { schedPoint("atomic.inc"); return ++value; }
-	T operator -- () noexcept { schedPoint("atomic.dec"); return --value; }
-	T operator ++ (int) noexcept { schedPoint("atomic.inc"); return value++; }
-	T operator -- (int) noexcept { schedPoint("atomic.dec"); return value--; }
-	T operator += (T d) noexcept { schedPoint("atomic.add"); return value = (T)(value + d); }
-	T operator -= (T d) noexcept { schedPoint("atomic.sub"); return value = (T)(value - d); }
+	T fetch_add(T d, std::memory_order = std::memory_order_seq_cst) noexcept { schedPoint("atomic.fetch_add"); T o = value; value = (T)(value + d); schedPoint("atomic.after"); return o; }
+	T fetch_sub(T d, std::memory_order = std::memory_order_seq_cst) noexcept { schedPoint("atomic.fetch_sub"); T o = value; value = (T)(value - d); schedPoint("atomic.after"); return o; }
+	T operator ++ () noexcept { schedPoint("atomic.inc"); T r = ++value; schedPoint("atomic.after"); return r; }
+	T operator -- () noexcept { schedPoint("atomic.dec"); T r = --value; schedPoint("atomic.after"); return r; }
+	T operator ++ (int) noexcept { schedPoint("atomic.inc"); T r = value++; schedPoint("atomic.after"); return r; }
+	T operator -- (int) noexcept { schedPoint("atomic.dec"); T r = value--; schedPoint("atomic.after"); return r; }
+	T operator += (T d) noexcept { schedPoint("atomic.add"); T r = value = (T)(value + d); schedPoint("atomic.after"); return r; }
+	T operator -= (T d) noexcept { schedPoint("atomic.sub"); T r = value = (T)(value - d); schedPoint("atomic.after"); return r; }
 	operator T () const noexcept { return load(); }
 	T operator = (T v) noexcept { store(v); return v; }
 
